@@ -74,11 +74,15 @@ A("transcribed, the NaN + ignores-mask clause is unspecified), C19 (declared nam
 A("oracle only), C20 (the regridding is `reproject`; adaptive: no value check), dask clauses of C01 / C08 / C10 (payloads")
 A("are computed before comparison; laziness itself is not modelled).\n")
 A("### 0.3 Seeded changes: which checks catch which changes\n")
-A(f"{len(seeds)} changes (three rounds of 3 per property) were produced by fresh sub-agents that saw")
+A(f"{len(seeds)} changes (four rounds of 3 per property; the fourth asked for changes that only show through state, unusual argument")
+A("forms, inputs that are themselves results, or coinciding circumstances) were produced by fresh sub-agents that saw")
 A("only the property text and a scratch worktree, confirmed by me in that worktree (demo passes clean / fails patched, pinned")
 A("suite's stable set still passes), stored under `seeded/<id>-<k>/` and run against the check with `tools/try_seed.sh` (apply")
 A(f"to /repo, check, `git checkout -- .`).  All {len(seeds)} are detected by the current checks (`tools/rerun_seeds.py` re-runs them")
-A(f"all; result in `seeded/STATUS.json`).  {len(missed)} were missed (or caught only through the model) by the first version of")
+A("all; result in `seeded/STATUS.json`); one of them, C06-11, leaves every clause of C06 true and is caught by the C09 check")
+A("instead (`meta.json` names the check in `detected_by`).  One fourth-round change for C17 was")
+A("neutralised by a repair made meanwhile (`extra_coords.add` now turns numpy-integer axes into ints) and is not stored.")
+A(f"{len(missed)} were missed (or caught only through the model) by the first version of")
 A("their check and led to the strengthening noted below; patches that no longer applied after a later repair of the same")
 A("lines were rebased by hand onto the repaired tree and re-confirmed.\n")
 A("| seed | caught by | note |")
